@@ -257,7 +257,7 @@ def call_chain(ctx, root, target_qual, stop=()):
                 out.append(q)
                 q = prev[q]
             return list(reversed(out))
-        nxt = [t for (_, tg, _) in ctx.calls.callees(f) for t in tg] + list(f.nested.values())
+        nxt = [t for (_, tg, _) in ctx.calls.callees(f) for t in tg] + list(f.nested_all)
         for t in nxt:
             if t.qual not in prev and t.qual not in stop:
                 prev[t.qual] = f.qual
@@ -310,7 +310,7 @@ def reaching_def(ctx, fi, name, at_node):
         a = n.ast
         if isinstance(a, ast.Assign) and len(a.targets) == 1 and isinstance(a.targets[0], ast.Name) and a.targets[0].id == name:
             defs.append(n)
-    if not defs or name in fi.params:
+    if not defs:
         return None
     other_binders = []
     from ..cfg import _killed_names
@@ -327,8 +327,10 @@ def reaching_def(ctx, fi, name, at_node):
             blockers = {x.id for x in defs + other_binders if x.id != d.id}
             if cfg.path(d.id, {uid}, blocked=blockers - {uid}, kinds="nx", from_successors=True) is not None:
                 cands.append(d)
-        # is there a path from entry to use avoiding all defs (uninitialised / other binder)?
         if len(cands) != 1:
+            return None
+        # the parameter value (or an unbound state) must not reach the use around the definitions
+        if name in fi.params and cfg.path(cfg.entry, {uid}, blocked={x.id for x in defs}, kinds="nx") is not None:
             return None
         if best is not None and best is not cands[0]:
             return None
